@@ -40,8 +40,9 @@ Bytes(x)  == V("Bytes", x, 0, <<>>)               \* ASCII text of the bytes obj
 Tuple(q)  == V("Tuple", "", 0, q)
 List(q)   == V("List",  "", 0, q)
 Deque(q, m) == V("Deque", "", m, q)               \* m = maxlen, 0 = None
-SetV(q)      == V("Set", "", 0, q)                \* q = INSERTION order (never significant for Eq);
-FrozenSet(q) == V("FrozenSet", "", 0, q)          \*     members pairwise different under Python ==
+SetV(q)      == V("Set", "", 0, q)                \* q = INSERTION order: an encoder attribute (it decides the
+FrozenSet(q) == V("FrozenSet", "", 0, q)          \*     iteration order when members collide in the hash table),
+                                                  \*     never significant for Eq; members pairwise different under ==
 Pair(k, x)   == V("Pair", "", 0, <<k, x>>)        \* one item of a mapping
 Dict(p)        == V("Dict", "", 0, p)             \* p = sequence of Pairs in insertion order
 OrderedDict(p) == V("OrderedDict", "", 0, p)
@@ -49,8 +50,11 @@ DefaultDict(f, p) == V("DefaultDict", f, 0, p)    \* f = name of default_factory
 Counter(p)     == V("Counter", "", 0, p)          \* values are Ints
 ByteArray(q)   == V("ByteArray", "", 0, q)        \* q = sequence of Ints 0..255
 PyArray(tc, q) == V("PyArray", tc, 0, q)          \* array.array(typecode, ints)
-NdArray(dt, shape, data) == V("NdArray", dt, 0, <<Tuple(shape), Tuple(data)>>)
-        \* dt = dtype.str ("<i8", "<i4", "<f8", "|O"); shape = sequence of Ints; data row-major
+NdArrayL(dt, shape, data, lay) == V("NdArray", dt, lay, <<Tuple(shape), Tuple(data)>>)
+        \* dt = dtype.str ("<i8", "<i4", "<f8", "|O"); shape = sequence of Ints; data in LOGICAL row-major order
+        \* lay = MEMORY LAYOUT, an encoder attribute (how the object is materialised), never part of the value:
+        \*   0 C-contiguous   1 np.asfortranarray(a)   2 non-contiguous slice big[..., ::2]   3 transposed view b.T
+NdArray(dt, shape, data) == NdArrayL(dt, shape, data, 0)
 Series(name, index, data) == V("Series", name, 0, <<Tuple(index), Tuple(data)>>)
 DataFrame(cols, index, data) == V("DataFrame", "", 0, <<Tuple(cols), Tuple(index), Tuple(data)>>)
         \* cols = sequence of Strs (unique); data = one Tuple of cell values per column, in column order
@@ -81,7 +85,9 @@ SortedSeq(S) == IF S = {} THEN <<>> ELSE <<MinOf(S)>> \o SortedSeq(S \ {MinOf(S)
 (* Order is significant exactly where the type says so: sequences, deques,  *)
 (* OrderedDict items, array data and shape, Series/DataFrame index, data    *)
 (* and column order; not for sets and plain mappings.  dtype, Series name,  *)
-(* class of an object are always significant.                               *)
+(* class of an object are always significant.  Encoder attributes - the     *)
+(* insertion order of sets / frozensets / plain mappings and the memory      *)
+(* layout of an array - say how the Python object is built; Eq ignores them. *)
 RECURSIVE Sim(_, _, _)
 Sim(v, w, L) ==
     LET sub(q, r)  == \A x \in Elems(q) : \E y \in Elems(r) : Sim(x, y, L)
@@ -94,6 +100,7 @@ Sim(v, w, L) ==
               [] v.t \in MappingTypes -> (L \/ v.s = w.s) /\ sub(v.a, w.a) /\ sub(w.a, v.a)
               [] v.t = "Deque"        -> (L \/ v.n = w.n) /\ same(v.a, w.a)
               [] v.t = "PyArray"      -> (L \/ v.s = w.s) /\ same(v.a, w.a)
+              [] v.t = "NdArray"      -> v.s = w.s /\ same(v.a, w.a)          \* memory layout (n) is not the value
               [] OTHER                -> v.s = w.s /\ v.n = w.n /\ same(v.a, w.a)
 
 Eq(v, w)      == Sim(v, w, FALSE)          \* THE ORACLE of C15
@@ -147,7 +154,10 @@ WellFormed(v) ==
                    /\ \A i \in DOMAIN v.a : v.a[i].t = "Pair" /\ Hashable(v.a[i].a[1])
                    /\ distinct(keys(v.a))
                    /\ v.t = "Counter" => \A i \in DOMAIN v.a : v.a[i].a[2].t = "Int"
-            [] v.t = "NdArray"   -> Len(v.a[2].a) = Prod(v.a[1].a)
+            [] v.t = "NdArray"   -> /\ Len(v.a[2].a) = Prod(v.a[1].a)
+                                    /\ v.n \in 0..3
+                                    /\ v.n \in {1, 3} => Len(v.a[1].a) = 2 /\ \A d \in Elems(v.a[1].a) : d.n >= 2
+                                    /\ v.n = 2 => Len(v.a[1].a) >= 1 /\ v.a[1].a[Len(v.a[1].a)].n >= 2
             [] v.t = "Series"    -> Len(v.a[1].a) = Len(v.a[2].a)
             [] v.t = "DataFrame" -> /\ Len(v.a[3].a) = Len(v.a[1].a)
                                     /\ distinct(v.a[1].a)
